@@ -473,8 +473,24 @@ def req_text(req):
 
 class Worker(vpenum.EnumWorker):
     def setup(self):
+        # A failure here must not kill the worker process (the pool would respawn it for ever):
+        # it is kept and reported by every case.
+        self.broken = None
+        try:
+            self._setup()
+        except Exception as e:   # noqa
+            self.broken = {'req': {'method': '-', 'path': '/-'}, 'status': 0, 'snip': repr(e)}
+
+    def _setup(self):
         self.setup_reqs = setup_requests()
-        self.state = self.build(self.setup_reqs)
+        self.restore(self.base)
+        for req in self.setup_reqs:
+            resp, _ = self.call(req)
+            if resp.status >= 400:
+                self.broken = {'req': req, 'status': resp.status,
+                               'snip': (resp.raw or b'')[:200].decode('utf-8', 'replace')}
+                return
+        self.state = self.image()
         self.d0 = self.dump()
         self.key0 = self.d0.key(aux=True)
         self.reqs = valid_requests(self.d0)
@@ -521,6 +537,8 @@ class Worker(vpenum.EnumWorker):
     def case(self, c):
         if c.get('kind') == 'static':
             return self.static()
+        if self.broken:
+            return {'broken': self.broken}
         self.use_policy(c['cfg'], c['rules'])
         route, method = c['route'], c['method']
         req = variant(self.reqs[(method, route)], route, method, c['variant'])
@@ -752,6 +770,8 @@ def populated_image():
     def child():
         try:
             w = Worker(base)
+            if w.broken:
+                raise RuntimeError('set-up refused: %r' % (w.broken,))
             wr.send(w.state)
         except BaseException as e:  # noqa
             wr.send(e)
@@ -825,6 +845,9 @@ def run(ctx):
             static = res
             nstatic = static_check(ctx, static)
             continue
+        if res.get('broken'):
+            _setup_failed(ctx, res['broken'])
+            return
         if res.get('skip'):
             skipped += 1
             continue
@@ -1008,6 +1031,22 @@ def run(ctx):
     ]
 
 
+def _setup_failed(ctx, b):
+    """A set-up request (a valid request by the admin token) was refused."""
+    req = b['req']
+    text = 'set-up request %s %s by an admin answered %s %r' % (
+        req['method'], req['path'], b['status'], b['snip'])
+    if b['status'] not in (401, 403):
+        raise HarnessError(text)
+    ctx.violation('setup-refused:%s %s:%s' % (req['method'], req['path'].split('/')[1],
+                                              b['status']),
+                  text + '; an admin satisfies the documented default of every rule used to '
+                  'populate the state', {'kind': 'setup', 'setup': setup_requests()})
+    ctx.coverage.update({'evaluations': 1, 'distinct_nontrivial': 0, 'exhaustive': False,
+                         'rule': 'aborted: the populated state could not be built',
+                         'samples': [req]})
+
+
 def _cfg_class(cfg, method, route):
     """Signature component: default / override of the operation's own rule / of a base rule its
     rule is defined through / of an unrelated rule."""
@@ -1058,6 +1097,14 @@ def replay(ctx, data):
                 o['method'], o['route'], o['caller'], o['status'], o['nstmt'])
         raise HarnessError('keystone replay produced no observation')
     w = Worker(make_base_image())
+    if kind == 'setup':
+        if w.broken:
+            return False, 'set-up request %s %s by an admin answered %s %r' % (
+                w.broken['req']['method'], w.broken['req']['path'], w.broken['status'],
+                w.broken['snip'])
+        return True, 'the populated state can be built'
+    if w.broken:
+        raise HarnessError('cannot build the populated state: %r' % (w.broken,))
     if kind == 'static':
         class _C(object):
             def __init__(self):
